@@ -69,6 +69,7 @@ def main(argv=None):
         print("no check for %s: %s" % (prop, e))
         return 2
     try:
+        core.prepare_lean_dir()
         return run_check(ctx, mod, args)
     except core.MachineryError as e:
         fresh_line()
@@ -79,6 +80,8 @@ def main(argv=None):
         fresh_line()
         print("MACHINERY-ERROR property=%s unexpected exception in the harness" % prop)
         return 2
+    finally:
+        core.drop_lean_dir()
 
 
 def run_check(ctx, mod, args):
@@ -88,24 +91,25 @@ def run_check(ctx, mod, args):
     gen_info = None
     ctx.lean_ok = True
     if not args.no_lean:
-        if hasattr(mod, "gen"):
-            gen_info = mod.gen(ctx)
-        ok, log, broken = core.lean_build(mod.LEAN_TARGETS + list(getattr(mod, "DRIVE_TARGETS", [])))
-        if not ok:
-            ctx.lean_ok = False
-            proof_broken = broken
-            print("lean build FAILED: " + "; ".join("%s (%s:%s)" % (b["decl"], b["file"], b["line"]) for b in broken[:6]))
-        else:
-            audit = core.lean_audit(mod.PROPS_FILE, mod.LEAN_TARGETS)
-            hard = [p for p in audit["problems"] if not p.startswith("theorem ") or "uses axioms" in p]
-            if hard:
-                raise core.MachineryError("audit: " + "; ".join(hard[:5]))
-            for p in audit["problems"]:
-                proof_broken.append({"file": mod.PROPS_FILE, "line": 0, "decl": p, "msg": p})
-            if ctx.thorough and os.environ.get("VERIF_LEANCHECKER", "1") == "1":
-                okc, tail = core.lean_check_olean(mod.LEAN_TARGETS)
-                if not okc:
-                    raise core.MachineryError("leanchecker rejected %s: %s" % (mod.LEAN_TARGETS, tail))
+      with core.LeanLock():
+          if hasattr(mod, "gen"):
+              gen_info = mod.gen(ctx)
+          ok, log, broken = core.lean_build(mod.LEAN_TARGETS + list(getattr(mod, "DRIVE_TARGETS", [])))
+          if not ok:
+              ctx.lean_ok = False
+              proof_broken = broken
+              print("lean build FAILED: " + "; ".join("%s (%s:%s)" % (b["decl"], b["file"], b["line"]) for b in broken[:6]))
+          else:
+              audit = core.lean_audit(mod.PROPS_FILE, mod.LEAN_TARGETS)
+              hard = [p for p in audit["problems"] if not p.startswith("theorem ") or "uses axioms" in p]
+              if hard:
+                  raise core.MachineryError("audit: " + "; ".join(hard[:5]))
+              for p in audit["problems"]:
+                  proof_broken.append({"file": mod.PROPS_FILE, "line": 0, "decl": p, "msg": p})
+              if ctx.thorough and os.environ.get("VERIF_LEANCHECKER", "1") == "1":
+                  okc, tail = core.lean_check_olean(mod.LEAN_TARGETS)
+                  if not okc:
+                      raise core.MachineryError("leanchecker rejected %s: %s" % (mod.LEAN_TARGETS, tail))
     ctx.proof_broken = proof_broken
 
     res = mod.run(ctx)
